@@ -107,7 +107,11 @@ func (oi *openIter) run(r *runner) ([]KRes, [][]byte, *mismatch) {
 		}
 		got = append(got, KRes{K: ki, Res: obs})
 		raws = append(raws, raw)
-		r.note("it %d %d %d %d %d %v|", ki, obs.Val, obs.Um, obs.Exp, obs.Ts, obs.Dead)
+		nv := obs.Val
+		if obs.Dead {
+			nv = 0 // the value of an expired version may or may not have been collected
+		}
+		r.note("it %d %d %d %d %d %v|", ki, nv, obs.Um, obs.Exp, obs.Ts, obs.Dead)
 		if len(got) > 10000 {
 			return nil, nil, &mismatch{"iter.endless", "more than 10000 items"}
 		}
@@ -125,6 +129,16 @@ func (r *runner) cmpSeq(what string, want, got []KRes, raws [][]byte, t int, all
 	}
 	if !all || hw == 0 {
 		if len(got) != len(want) {
+			// a key the specification says is invisible (deleted, expired, never written) shows up
+			wk := map[int]bool{}
+			for _, w := range want {
+				wk[w.K] = true
+			}
+			for _, g := range got {
+				if !wk[g.K] {
+					return &mismatch{what + ".resurrectedKey", detail(fmt.Sprintf("key %d is yielded but predicted invisible (want %d items got %d)", g.K, len(want), len(got)))}
+				}
+			}
 			return &mismatch{what + ".length", detail(fmt.Sprintf("want %d items got %d", len(want), len(got)))}
 		}
 		for j := range want {
@@ -137,7 +151,7 @@ func (r *runner) cmpSeq(what string, want, got []KRes, raws [][]byte, t int, all
 		}
 		return nil
 	}
-	realHw := r.realFloor(hw)
+	realHw := hw // the comparison below runs on model timestamps (real ones repeat across re-opens)
 	// got must be a subsequence of want
 	j := 0
 	present := make([]bool, len(want))
@@ -168,7 +182,7 @@ func (r *runner) cmpSeq(what string, want, got []KRes, raws [][]byte, t int, all
 	newer := func(a, b uint64) bool { return a > b }
 	wantTopTs, gotTopTs := map[int]uint64{}, map[int]uint64{}
 	for i, w := range want {
-		wts, _ := r.realTs(w.Res.Ts, t)
+		wts := w.Res.Ts
 		if wts > realHw {
 			if !present[i] {
 				return &mismatch{what + ".missingAboveDiscard", detail(fmt.Sprintf("predicted position %d (version above the discard bound %d) is missing", i, realHw))}
